@@ -16,7 +16,7 @@ type GenOpts struct {
 	KindsUsed []string // nil = all
 }
 
-var methods = []string{"get", "put", "post", "delete", "options", "head", "patch", "trace"}
+var methods = []string{"get", "put", "post", "delete", "options", "head", "patch", "trace", "connect"}
 
 type gen struct {
 	r     *rand.Rand
